@@ -88,6 +88,40 @@ def ball_part(shard, n_seeds, seed):
     return part
 
 
+def subgroup_part(shard, n_v4, seed):
+    """
+    EVERY assignment of the mandatory metrics of v2 and v3 (both minor versions), and seeded v4 ones, times every sub-group of
+    optional metrics (temporal; CDP/TD; CR/IR/AR; the modified exploitability / scope / impact metrics; supplemental): one
+    spelling omits the whole sub-group, the other writes all of it as Not Defined; the other sub-groups get a random shape that
+    is the same in both.  ("Is this part of the vector used?" shortcuts key on whole sub-groups and are wrong for a few bases.)
+    """
+    import random
+    part = runner.Part(PID)
+    rng = random.Random(runner.mix(seed, 55, shard))
+    for ver in spec.VKEYS:
+        V = spec.VERS[ver]
+        if ver == "4":
+            names = list(V.mandatory)
+            bases = [dict((m, rng.choice(list(V.table[m]))) for m in names) for _ in range(n_v4)]
+        else:
+            bases = [b for i, b in enumerate(gen.all_bases(ver)) if i % runner.NPROC == shard]
+        for base in bases:
+            for prefix in V.prefixes * (40 if ver == "2" else 1):       # v2 is small: forty random surroundings of every (base, sub-group)
+                for g in gen.SUBGROUPS[ver]:
+                    d = dict(base)
+                    for other in gen.SUBGROUPS[ver]:
+                        if other is not g:
+                            gen.rng_shape(rng, ver, other, d)
+                    d2 = dict(d)
+                    for m in g:
+                        d2[m] = V.nd
+                    a = ref.build(prefix, d, gen.ordered(set(d), V.order, 0))
+                    b = ref.build(prefix, d2, gen.ordered(set(d2), V.order, rng.randrange(1, 1 << 20) if rng.random() < 0.3 else 0))
+                    part.count(None, nontrivial=True, distinct=True, classes=("subgroup-sweep", "subgroup-sweep:v" + ver))
+                    part.check("invariance", check_invariance, {"ver": ver, "a": a, "b": b})
+    return part
+
+
 def respelling(ver):
     """strategy -> (a, b, n_toggles, permuted)"""
     from hypothesis import strategies as st
@@ -161,10 +195,13 @@ def run(tier, t0):
     part = runner.hyp_shards("vf.props.c05", "hyp_part", 8000 if tier == "quick" else 200000)
     for p in runner.parallel("vf.props.c05", "ball_part", [(sh, 1 if tier == "quick" else 12, runner.SEED) for sh in range(runner.NPROC)]):
         part.merge(p)
+    for p in runner.parallel("vf.props.c05", "subgroup_part", [(sh, 150 if tier == "quick" else 4000, runner.SEED) for sh in range(runner.NPROC)]):
+        part.merge(p)
     rule = ("accepted vector (any spelling) and a second spelling of the same metric assignment: seeded permutation of "
             "the fields and an independent subset (half of the time exactly one) of the Not Defined optional metrics "
             "toggled between written and omitted; non-trivial = second spelling differs in order AND in at least one "
-            "Not Defined toggle; distinct by 64-bit hash of the pair")
+            "Not Defined toggle; distinct by 64-bit hash of the pair. Plus a sweep over EVERY v2 / v3 assignment of the mandatory metrics (seeded ones for v4) x every "
+            "sub-group of optional metrics omitted vs written as Not Defined")
     return runner.finish(part, tier, t0, rule,
                          ["as_json is not among the compared observables (not listed in the statement)"],
-                         required=("v2", "v3", "v4", "nd-toggle", "single-nd-toggle", "permuted", "mutant", "one-edit-ball-member-tried"))
+                         required=("v2", "v3", "v4", "nd-toggle", "single-nd-toggle", "permuted", "mutant", "one-edit-ball-member-tried", "subgroup-sweep:v2", "subgroup-sweep:v3", "subgroup-sweep:v4"))
